@@ -15,7 +15,7 @@ def _reg(mod):
 
 
 _reg(rules_k)
-for _m in ("rules_t", "rules_d", "rules_m", "rules_s", "rules_p", "rules_a", "rules_a1", "rules_o", "rules_e", "rules_x", "rules_y"):
+for _m in ("rules_t", "rules_d", "rules_m", "rules_s", "rules_p", "rules_a", "rules_a1", "rules_o", "rules_e", "rules_x", "rules_y", "rules_z"):
     try:
         _mod = __import__(f"gbsa.{_m}", fromlist=["*"])
     except ImportError:
@@ -58,7 +58,7 @@ _ALL = {
         technique="null-code preservation (taint + idiom table), fact-walker dominance, route table",
     ),
     "C03": dict(
-        want=["M1", "M2", "M3", "M4", "M5", "D2", "D6b", "D9", "S2", "K2", "M6", "P7b", "P18"],
+        want=["M1", "M2", "M3", "M4", "M5", "D2", "D6b", "D9", "S2", "K2", "M6", "P7b", "P18", "M9"],
         explanation=("Decides the structural causes of strategy dependence: every merge of partial results receives the "
                      "accumulated count (M1) which is updated after the merge (M2); parallel_map places results by submission "
                      "index (M3); all row-aligned arrays are split by one splitter (M4); pointer lookups are offset by the "
@@ -124,7 +124,7 @@ _ALL = {
         technique="GCNF tables; loop-body obligations; path pairing rule",
     ),
     "C09": dict(
-        want=["K1@rolling", "K3@rolling", "K4@rolling", "K5", "D3", "P10", "P11b", "D3b", "W1", "W2", "W3"],
+        want=["K1@rolling", "K3@rolling", "K4@rolling", "K5", "D3", "P10", "P11b", "D3b", "W1", "W2", "W3", "W4"],
         explanation=("Decides the periphery of the rolling kernels, not the window arithmetic: null/mask guards (K1, K3); "
                      "counter width (K4); dtype provenance on selection paths so min/max/shift return input elements exactly "
                      "(K5); op -> kernel/flag dispatch and flag -> orientation (D3); restoration keeps the input's time unit (P10)."
@@ -134,7 +134,7 @@ _ALL = {
         technique="fact walker, path enumeration, dtype-provenance classification, dispatch folding",
     ),
     "C10": dict(
-        want=["K1@ema", "E1", "E2", "E3", "A2", "K3@ema", "M7", "E4", "E5"],
+        want=["K1@ema", "E1", "E2", "E3", "A2", "K3@ema", "M7", "E4", "E5", "E6", "E7", "P24"],
         explanation=("Decides the periphery of the EMA, not the closed form: null-key guard in the grouped kernels (K1); "
                      "invalid rows read the group's own carried value (E2); the halflife->alpha conversion is the same "
                      "function of the raw parameter in both entry points (E1); the alignment decorator names real "
@@ -144,7 +144,7 @@ _ALL = {
         technique="fact walker; expression normal-form comparison; decorator-name rule",
     ),
     "C11": dict(
-        want=["P4", "P9", "P7b", "P11b", "P13", "M5", "P5b", "L1", "L2"],
+        want=["P4", "P9", "P7b", "P11b", "P13", "M5", "P5b", "L1", "L2", "A3c", "D7", "M9"],
         explanation=("Decides two structural necessary conditions: the sort permutation derived from the labels reaches the "
                      "result and count frames on every non-transform path (P4); key names are assigned on every constructing "
                      "path (P9)."
@@ -153,7 +153,7 @@ _ALL = {
         technique="path rules over _apply_gb_reduction / __init__",
     ),
     "C12": dict(
-        want=["P1", "T2", "T3", "K5", "P10", "K4b", "P12", "F1b", "P7b", "M7", "P17"],
+        want=["P1", "T2", "T3", "K5", "P10", "K4b", "P12", "F1b", "P7b", "M7", "P17", "D7c", "M9", "P24", "O1"],
         explanation=("Decides the dtype/exactness clauses: temporal cast<->restore pairing on all paths (P1); selection "
                      "reducers never do arithmetic on values (T2-L4); accumulator dtype table (T3); dtype provenance in "
                      "rolling selection paths (K5); unit-preserving restoration (P10)."
@@ -162,7 +162,7 @@ _ALL = {
         technique="path pairing; table laws; dtype provenance",
     ),
     "C13": dict(
-        want=["S1", "S2", "S3", "S4", "K2", "M8", "S3b", "H2"],
+        want=["S1", "S2", "S3", "S4", "K2", "M8", "S3b", "H2", "S5"],
         explanation=("Decides history independence structurally: finite typestate interpretation of the key-representation "
                      "mutator from every state (S1); every consumer of global codes sees global codes (S2); every attribute "
                      "read by a method is initialised on every constructor path (S3); logical attributes are assigned only "
@@ -172,7 +172,7 @@ _ALL = {
         technique="finite abstract interpretation (typestate), definite-assignment, mutation containment",
     ),
     "C14": dict(
-        want=["A8", "P2", "T3", "A3x", "P14", "P15", "P16"],
+        want=["A8", "P2", "T3", "A3x", "P14", "P15", "P16", "P15b", "A3y"],
         explanation=("Decides the periphery of margins: imports on the margin path resolve in the pinned environment (A8); "
                      "margins are applied to sums and counts before the division (P2); margin aggregator table (T3); crosstab "
                      "forwards mask/margins/aggfunc (A3x)."
@@ -181,7 +181,7 @@ _ALL = {
         technique="link check; path rule; table; forwarding rule",
     ),
     "C15": dict(
-        want=["K4@rowsel", "K1@rowsel", "A1", "R1", "P17", "H1"],
+        want=["K4@rowsel", "K1@rowsel", "A1", "R1", "P17", "H1", "K2", "P21"],
         explanation=("Decides the stated failure modes: per-group row counters are wide enough (K4); null-key rows are never "
                      "selected (K1); selection inputs are validated against the keys (A1)."
                      ' Also: the backward scan of tail is flipped back (R1); the selected columns are not stacked into one array (P17); the occurrence counter of the scans is compared (== n / slot < n) before it is incremented, once per accepted row, and a negative n scans backwards with n := -n - 1 (H1).'),
@@ -189,7 +189,7 @@ _ALL = {
         technique="allocation-width rule; fact walker; must-validate",
     ),
     "C16": dict(
-        want=["A3c", "D7", "P5b", "P20", "D7b"],
+        want=["A3c", "D7", "P5b", "P20", "D7b", "D7c", "P22"],
         explanation=("Decides composition consistency: composites forward every semantic parameter to the primitives they are "
                      "defined by (A3c); var uses the three primitives with one shared keyword set and std delegates to var (D7)."
                      ' Also: label-sorted arrays are filtered only by selectors in the same order (P5b); the composites apply no null-suppressing function (P20); the value returned by var is (sum_squares - sum^2/count)/(count - ddof) in canonical arithmetic form and std is its square root (D7b).'),
@@ -205,7 +205,7 @@ _ALL = {
         technique="call binding over facade delegations",
     ),
     "C18": dict(
-        want=["A1", "A2"],
+        want=["A1", "A2", "A9"],
         explanation=("Decides 'misaligned => some validator runs before any consumer': every array parameter of every public "
                      "entry point reaches a validator that compares with the key length and key index before it is consumed "
                      "(A1); decorator names are real parameters (A2)."),
@@ -220,7 +220,7 @@ _ALL = {
         technique="interprocedural mod/ref + freshness analysis",
     ),
     "C20": dict(
-        want=["T1b", "D5", "P1", "N1", "P18", "P19"],
+        want=["T1b", "D5", "P1", "N1", "P18", "P19", "D5b", "P23", "P24"],
         explanation=("Decides the structure of the stand-alone reducers: binary reducer tables (T1b); reducer name -> (initial "
                      "value, chunk-combine reducer) table and null-skipping combine stage (D5); view/convert pairing in "
                      "reduce_1d (P1); null-skip shape of the chunk reducer (N1)."
